@@ -602,6 +602,9 @@ def run(ctx):
                         cfgs.append(dict(rate=rate, t_start=t0, asc=asc, sources=src, seed=seed,
                                          fch1=0.0 if asc else rate / 2,
                                          depth=(6 if (T and rate == 1e3 and t0 == 1.5 and seed == ctx.seed + 5) else depth)))
+    # the seed value 0 itself (a falsy seed is still a seed)
+    cfgs += [dict(c, seed=0) for c in cfgs if c['seed'] == ctx.seed + 5 and c['rate'] == 1e3 and c['t_start'] == 0
+             and c['sources'] in ('noise', 'three_noise', 'noise+chirp+real') and ctx.seed + 5 != 0 and ctx.seed + 6 != 0]
     # (sub-box) every request preceded by two refused ones
     refuse = [dict(c, refuse=True) for c in cfgs if c['rate'] == 1e3 and c['t_start'] == 100.25 and c['seed'] == ctx.seed + 5]
     # (sub-box) the orientation flag as a numpy bool / as 0, 1
